@@ -1150,7 +1150,8 @@ func json_encode(obj MalType) (MalType, error) {
 func hash_map(a ...MalType) (MalType, error) {
 	switch len(a) {
 	case 0:
-		return HashMap{}, nil
+		// an empty map, not the zero HashMap: its nil Val made (merge (hash-map) nil) return nil
+		return HashMap{Val: map[string]MalType{}}, nil
 	case 1:
 		return a[0].(marshaler.HashMap).MarshalHashMap()
 	default:
